@@ -172,7 +172,6 @@ func lowerFirst(s string) string { return strings.ToLower(s) }
 // fieldLoadOf: sym is a (load of a) field owner.name
 func symIsFieldOf(s *Sym, owner, name string) bool { return s.Strip().IsField(owner, name) }
 
-
 // isLogCall: a call that only writes a log line — the print/println builtins, fmt.Print*/Fprint* and the log
 // package. Rules about what a function does "first" or about "no other call" look through these.
 func isLogCall(ci ssa.CallInstruction) bool {
